@@ -404,7 +404,8 @@ def configs(tier):
     if tier != 'quick':
         opt += ['Toric2DCode(2,3)', 'Planar2DCode(3,3)', 'Toric2DCode(3,3)']
         cor += ['Planar2DCode(4,4)', 'RotatedPlanar2DCode(4,4)', 'RotatedPlanar2DCode(5,5)', 'Planar2DCode(5,5)',
-                'Toric2DCode(5,5)', 'RotatedPlanar2DCode(5,4)']
+                'Toric2DCode(5,5)', 'RotatedPlanar2DCode(5,4)', 'RotatedPlanar2DCode(6,5)', 'Planar2DCode(6,5)']
+        # Toric2DCode(5,6) / (6,6) and RotatedPlanar2DCode(7,7) were tried: solver unknown after 300 s (outside the bound)
     sec = ['Toric2DCode(2,2)/XZZX/x y', 'Planar2DCode(2,3)/XZZX/y x', 'RotatedPlanar2DCode(3,3)/XZZX/x none']
     real = ['real unionfind Toric2DCode(3,3) w=1', 'real unionfind Toric2DCode(3,4) w=1', 'real sweepmatch Toric3DCode(3,3,3) w=1',
             'real rotatedsweepmatch RotatedPlanar3DCode(3,3,3) w=1', 'real matching RotatedPlanar2DCode(3,3) w=1']
